@@ -25,7 +25,9 @@ def check(ix, rep):
     nk = P.check_keys(ix, rep, classes)
     rep.floor('dictionary reads on the parse path', nk, 6)
     nl = P.check_literal_domain(ix, rep, classes, grammars)
-    rep.floor('literal conversions', nl, 2)
+    rep.floor('literal conversions', nl, 4)
+    nd = P.check_dynamic(ix, rep)
+    rep.floor('look-ups / instantiations by a name taken from the specification', nd, 2)
     P.check_string_index(ix, rep)
     P.check_interval_guard(ix, rep)
     nt = P.check_termination(ix, rep, [ltl, stl])
@@ -41,7 +43,9 @@ def check(ix, rep):
         'accessor of an element that is optional in its grammar alternative is None-tested before it is dereferenced or visited. R-EXC: every '
         'explicit raise on the parse path constructs RTAMTException. R-KEY: every read of a specification dictionary is justified (membership '
         'guard, KeyError handler, dominating store, guard-raise, or an interprocedural co-write argument re-validated on every run). Literal '
-        'domain: the grammar admits hex/binary literals, so every float()/Decimal() on literal text must handle the converter\'s error. The '
+        'domain: the grammar admits hex/binary literals, so every float()/Decimal() on literal text must handle the converter\'s error; it admits runs of underscores, so the text must pass '
+        'through replace(\'_\', \'\') before float()/int(). Objects looked up by a name from the specification (getattr, instantiation) turn '
+        'AttributeError/TypeError into RTAMTException. The '
         'specification text is never indexed by position; an interval is built only after a dominating begin<=end guard; builder methods '
         'contain no loop and recurse only into child contexts (termination, given ANTLR\'s own). Unit strings the parser can attach are consumed '
         'without KeyError by both transformers.')
